@@ -5,7 +5,7 @@
    puts / heads / debits / fwds tr are its timed put() calls, the instants packets reached the head of the
    queue with the server free, the instants their tokens were taken, and their departures (out.put). *)
 From Coq Require Import ZArith QArith Qminmax List.
-From ONL Require Import Elem.Packet Elem.StoreQ Elem.Bucket Elem.BucketProofs.
+From ONL Require Import Elem.Packet Elem.StoreQ Elem.Bucket Elem.BucketProofs Elem.TwoRate Elem.TwoRateProofs.
 Import ListNotations.
 
 (* ---------------- TokenBucket ---------------- *)
@@ -106,3 +106,98 @@ Theorem C11_tb_lossless : forall c t0 acts s tr,
   map snd (fwds tr) = map snd (puts tr).
 Proof. exact tb_lossless. Qed.
 Print Assumptions C11_tb_lossless.
+
+(* ---------------- TwoRateTokenBucket ---------------- *)
+(* tr_run true true c (tr0 true c t0) acts = Some (s, tr): an admissible execution of the repaired two-rate
+   bucket; rputs / rheads / rfwds tr its timed arrivals, head instants and departures, rcols tr the colours of
+   the departures in order.  trwf c: CIR > 0 and PIR > 0 when given.  Both buckets start full at t0. *)
+
+(* every admissible execution is an instance of the two-rate recurrence (rchain): head instant
+   max(arrival, previous departure), both buckets refilled min(size, level + rate*(h - U)/8), colour tr_colour,
+   departure tr_dep, tokens left tr_postC / tr_postP *)
+Theorem C11_trtb_recurrence : forall c t0 acts s tr,
+  trwf c -> tr_run true true c (tr0 true c t0) acts = Some (s, tr) ->
+  exists R, rchain c (cbs c) (tr_P0 c) t0 R /\ rputs tr = rv_arr R ++ sq_held (rq s) /\ tr_matches s tr R.
+Proof. exact trtb_spec. Qed.
+Print Assumptions C11_trtb_recurrence.
+
+(* ... hence colours and departures are, in order, what the executable recurrence tr_rec computes from the
+   arrivals alone (all of them once the bucket is quiescent) *)
+Theorem C11_trtb_is_recurrence : forall c t0 acts s tr,
+  trwf c -> tr_run true true c (tr0 true c t0) acts = Some (s, tr) ->
+  exists n, rcols tr = firstn n (rec_cols c t0 (rputs tr)) /\ tpe (rfwds tr) (firstn n (rec_deps c t0 (rputs tr))) /\
+            n = length (rfwds tr) /\ (tr_quiescent s -> n = length (rputs tr)).
+Proof. exact trtb_is_recurrence. Qed.
+Print Assumptions C11_trtb_is_recurrence.
+
+(* green iff all configured buckets cover the packet on arrival at the head of the queue, yellow iff only the
+   committed tokens are short, red iff the peak tokens are short - and then it waits for them *)
+Theorem C11_trtb_colour_iff : forall c t0 acts s tr,
+  trwf c -> tr_run true true c (tr0 true c t0) acts = Some (s, tr) ->
+  forall k t p, nth_error (rfwds tr) k = Some (t, p) ->
+    exists col h c1 p1,
+      nth_error (rcols tr) k = Some col /\
+      (exists h', nth_error (rheads tr) k = Some (h', p) /\ h' == h) /\
+      c1 <= cbs c /\
+      (k = 0%nat -> c1 == refill (cbs c) (cir c) (cbs c) t0 h /\
+                   forall pir pbs, pk c = Some (pir, pbs) -> p1 == refill pbs pir pbs t0 h) /\
+      (col = Green <-> sz p <= c1 /\ (pk c <> None -> sz p <= p1)) /\
+      (col = Yellow <-> c1 < sz p /\ (pk c <> None -> sz p <= p1)) /\
+      (col = Red <-> pk c <> None /\ p1 < sz p) /\
+      t == tr_dep c h c1 p1 (sz p) /\ h <= t /\
+      (pk c <> None -> col <> Red -> t == h) /\ (col = Red -> h < t).
+Proof. exact trtb_colour_iff. Qed.
+Print Assumptions C11_trtb_colour_iff.
+
+(* the code of the pinned commit: a yellow packet emptied the committed bucket ... *)
+Theorem C11_trtb_yellow_refuted_before_fix :
+  exists c t0 acts s tr, trwf c /\ tr_run false true c (tr0 true c t0) acts = Some (s, tr) /\ tr_quiescent s /\
+    rcols tr = [Green; Yellow; Yellow] /\ rec_cols c t0 (rputs tr) = [Green; Yellow; Green].
+Proof. exact trtb_yellow_refuted_before_fix. Qed.
+Print Assumptions C11_trtb_yellow_refuted_before_fix.
+
+(* ... and the committed tokens of a red packet's wait were lost ... *)
+Theorem C11_trtb_red_refuted_before_fix :
+  exists c t0 acts s tr, trwf c /\ tr_run true false c (tr0 true c t0) acts = Some (s, tr) /\ tr_quiescent s /\
+    rcols tr = [Green; Green; Green; Red; Yellow] /\ rec_cols c t0 (rputs tr) = [Green; Green; Green; Red; Green].
+Proof. exact trtb_red_refuted_before_fix. Qed.
+Print Assumptions C11_trtb_red_refuted_before_fix.
+
+(* ... and with a negative initial time the full buckets were drained by the first refill *)
+Theorem C11_trtb_initially_full_refuted_before_fix :
+  exists c t0 acts s tr p, trwf c /\ tr_run true true c (tr0 false c t0) acts = Some (s, tr) /\
+    rputs tr = [(-1 # 2, p)] /\ sz p <= cbs c /\ sz p <= tr_P0 c /\ rfwds tr = [(-7 # 64, p)] /\ rcols tr = [Red].
+Proof. exact trtb_initially_full_refuted_before_fix. Qed.
+Print Assumptions C11_trtb_initially_full_refuted_before_fix.
+
+(* shapes against (PIR, PBS) - or (CIR, CBS) without PIR: the conformance inequality over all i <= j *)
+Theorem C11_trtb_shapes_against : forall c t0 acts s tr,
+  trwf c -> tr_run true true c (tr0 true c t0) acts = Some (s, tr) ->
+  forall i j ti pi tj pj, (i <= j)%nat ->
+    nth_error (rfwds tr) i = Some (ti, pi) -> nth_error (rfwds tr) j = Some (tj, pj) ->
+    ti <= tj /\
+    bytes (slice i j (rfwds tr)) <= Qmax (shape_size c) (sz pi) + fill (shape_rate c) (tj - ti).
+Proof. exact trtb_shapes_against. Qed.
+Print Assumptions C11_trtb_shapes_against.
+
+(* green traffic conforms to (CIR, CBS): over any window of departures the green bytes are within
+   CBS + CIR * (t_j - t_i) / 8 *)
+Theorem C11_trtb_green_conforms : forall c t0 acts s tr,
+  trwf c -> 0 <= cbs c -> tr_run true true c (tr0 true c t0) acts = Some (s, tr) ->
+  forall i j ti pi tj pj, (i <= j)%nat ->
+    nth_error (rfwds tr) i = Some (ti, pi) -> nth_error (rfwds tr) j = Some (tj, pj) ->
+    gbytes (slice i j (rfwds tr)) (slice i j (rcols tr)) <= cbs c + fill (cir c) (tj - ti).
+Proof. exact trtb_green_conforms. Qed.
+Print Assumptions C11_trtb_green_conforms.
+
+Theorem C11_trtb_fifo : forall c t0 acts s tr,
+  trwf c -> tr_run true true c (tr0 true c t0) acts = Some (s, tr) ->
+  exists rest, map snd (rputs tr) = map snd (rfwds tr) ++ rest.
+Proof. exact trtb_fifo. Qed.
+Print Assumptions C11_trtb_fifo.
+
+Theorem C11_trtb_lossless : forall c t0 acts s tr,
+  trwf c -> tr_run true true c (tr0 true c t0) acts = Some (s, tr) -> tr_quiescent s ->
+  map snd (rfwds tr) = map snd (rputs tr).
+Proof. exact trtb_lossless. Qed.
+Print Assumptions C11_trtb_lossless.
